@@ -775,7 +775,31 @@ pub fn structured(rng: &mut Rng, which: usize) -> (String, HNode) {
 }
 
 /// Workload mix used by most properties: mostly G1, some G2. Returns (description, tree).
+/// One decision with `k` actions (far more than the usual handful) per player, the second player
+/// not seeing the first move; with probability one half behind a chance node with `k` outcomes
+pub fn wide_node(rng: &mut Rng, k: usize) -> HNode {
+    let reply = |rng: &mut Rng| player(1, "wide-reply", (0..3).map(|j| (format!("b{}", j), term((rng.range(0, 16) as f64 - 8.0) / 4.0))).collect());
+    let first = player(0, "wide", (0..k).map(|a| (format!("a{:03}", a), reply(rng))).collect());
+    if rng.chance(0.5) {
+        let leaf = |rng: &mut Rng| term((rng.range(0, 8) as f64 - 4.0) / 2.0);
+        let mut outs: Vec<(f64, HNode)> = (0..k - 1).map(|_| (1.0, leaf(rng))).collect();
+        outs.push((k as f64, first));
+        chance(None, outs)
+    } else {
+        first
+    }
+}
+
 pub fn any_game(rng: &mut Rng, size: usize) -> (String, HNode) {
+    // now and then a game that is large in one dimension only: width or depth
+    if rng.chance(0.006) {
+        let k = *rng.pick(&[65usize, 100, 129, 300]);
+        return (format!("wide_node(k={})", k), wide_node(rng, k));
+    }
+    if rng.chance(0.004) {
+        let d = *rng.pick(&[400usize, 700, 1500]);
+        return (format!("centipede{}", d), centipede(d));
+    }
     if rng.chance(0.2) {
         let w = rng.below(18); // deep centipede (13) only on request
         structured(rng, if w >= 13 { w + 1 } else { w })
